@@ -1,6 +1,7 @@
 package main
 
 import (
+	"go/constant"
 	"fmt"
 	"go/token"
 	"go/types"
@@ -425,4 +426,99 @@ func init() {
 			}
 			r.Check(n >= 2, "-", "powers in the end blocker", fmt.Sprintf("%d Power() calls in the end blocker's call tree", n), fmt.Sprintf("only %d Power() calls found", n))
 		}})
+}
+
+// helperDisjuncts: for an outcome of a boolean helper that is its short-circuit value (false of `a && b && c`, true
+// of `a || b || c`) the facts of which AT LEAST ONE holds: !a, !b, !c (resp. a, b, c), parameters substituted.
+// nil when the helper does not have that shape.
+func (e *Engine) helperDisjuncts(g Guard) []Guard {
+	c := g.Cond
+	if c.Op != "ncall" && c.Op != "call" {
+		return nil
+	}
+	call, ok := c.Instr.(ssa.CallInstruction)
+	if !ok {
+		return nil
+	}
+	fn := call.Common().StaticCallee()
+	if fn == nil || fn.Blocks == nil || fn.Pkg == nil || !smPkgs[fn.Pkg.Pkg.Path()] {
+		return nil
+	}
+	if fn.Signature.Results().Len() != 1 || !types.Identical(fn.Signature.Results().At(0).Type(), types.Typ[types.Bool]) {
+		return nil
+	}
+	rets := Returns(fn)
+	if len(rets) != 1 {
+		return nil
+	}
+	hfa := e.FA(fn)
+	m := map[string]*Term{}
+	args := c.CallArgsT()
+	for i, p := range fn.Params {
+		if i < len(args) {
+			m[reviewedParamName(p)] = args[i]
+		}
+	}
+	v := rets[0].Results[0]
+	pos := g.Pos
+	for {
+		u, isNot := v.(*ssa.UnOp)
+		if !isNot || u.Op != token.NOT {
+			break
+		}
+		v, pos = u.X, !pos
+	}
+	phi, isPhi := v.(*ssa.Phi)
+	if !isPhi {
+		return nil
+	}
+	ds := shortCircuitDisjuncts(hfa, phi, pos)
+	for i := range ds {
+		ds[i].Cond = subst(ds[i].Cond, m)
+	}
+	return ds
+}
+
+// shortCircuitDisjuncts: phi is the value of `a && b && c` (or `a || b || c`) and pos its short-circuit outcome
+// (false, resp. true): the facts of which at least one holds.  nil for any other shape.
+func shortCircuitDisjuncts(fa *FuncAnalysis, phi *ssa.Phi, pos bool) []Guard {
+	var out []Guard
+	norm := func(t *Term, p bool) Guard {
+		for t.Op == "unop" && t.Name == "!" {
+			t = t.Args[0]
+			p = !p
+		}
+		return Guard{Cond: t, Pos: p}
+	}
+	nConst := 0
+	for i, ed := range phi.Edges {
+		pred := phi.Block().Preds[i]
+		if cst, isC := ed.(*ssa.Const); isC {
+			if cst.Value == nil || cst.Value.Kind() != constant.Bool || constant.BoolVal(cst.Value) != pos {
+				return nil // this is not the short-circuit outcome
+			}
+			nConst++
+			// the operand whose value short-circuited: the branch at the end of the predecessor
+			iff, isIf := lastInstr(pred).(*ssa.If)
+			if !isIf || len(pred.Succs) != 2 {
+				return nil
+			}
+			taken := pred.Succs[0] == phi.Block()
+			out = append(out, norm(fa.Term(iff.Cond), taken))
+			continue
+		}
+		if q, nested := ed.(*ssa.Phi); nested {
+			sub := shortCircuitDisjuncts(fa, q, pos)
+			if sub == nil {
+				return nil
+			}
+			out = append(out, sub...)
+			continue
+		}
+		out = append(out, norm(fa.Term(ed), pos))
+	}
+	if nConst == 0 {
+		return nil
+	}
+	return out
 }
